@@ -78,6 +78,10 @@ def run (cfg : Cfg) (lid : Nat) : List Msg → List Fault → Option (Nat × Nat
 def follower (cfg : Cfg) (msgs : List Msg) : Option (Option (Nat × Nat) × List Fault) :=
   (leaderID? cfg).map fun lid => run cfg lid msgs []
 
+/-- consecutive windows on one executor: the routine keeps no state between windows -/
+def followerSeq (cfgs : List (Cfg × List Msg)) : List (Option (Option (Nat × Nat) × List Fault)) :=
+  cfgs.map fun c => follower c.1 c.2
+
 /-! ## Monitor: the property as a predicate on (history, what the implementation returned) -/
 
 /-- passed type / self / membership / window / wallet filters -/
